@@ -257,7 +257,9 @@ def main(argv=None):
             property_id=prop, tier=tier, seed=seed, level=getattr(mod, "LEVEL", "proof"),
             coverage=dict(
                 explanation=getattr(mod, "EXPLANATION", "contract-based deductive verification: obligations generated from the extracted jaxprs of the real functions and discharged by z3/cvc5; see obligation_list"),
-                obligations=n_obl, discharged=len(discharged),
+                # bounded stand-ins are never counted as proof obligations (a passing one is only listed under `bounded`; a failing one - e.g. a recorded known finding - is listed
+                # there with ok=false and under failed / known_findings)
+                obligations=len([r for r in results if r.get("backend") != "bounded-native"]), discharged=len(discharged),
                 checker_cmd=f"./check {prop} --tier {tier}",
                 trusted_base=trusted,
                 failed=len(failed), known_findings=len(known_hits), undecided=len(undec),
